@@ -55,6 +55,15 @@ Init == rules = <<>> /\ hist = <<>>
 Add(p, c) == rules' = With(rules, p, c)
 Delete(p) == rules' = Without(rules, p)
 Match(path, res) == SameConf(res, Resolve(rules, path)) /\ UNCHANGED rules
+(* the configuration as the code lists it (what is persisted after a change):
+   exactly the configured locations with their rules, in any order *)
+Dump(rs) ==
+  /\ Len(rs) = Cardinality(DOMAIN rules)
+  /\ \A k \in 1..Len(rs) : rs[k].p \in DOMAIN rules /\ SameConf(rs[k].c, rules[rs[k].p])
+  /\ \A p \in DOMAIN rules : \E k \in 1..Len(rs) : rs[k].p = p
+  /\ UNCHANGED rules
+(* writing the configuration out and loading it again changes nothing *)
+Reload == UNCHANGED rules
 
 (* ------------- generator / model checking ------------- *)
 MkConf(k, m) == [f \in Fields |-> IF f \in m THEN Vals[k][f] ELSE Empty[f]]
